@@ -178,11 +178,16 @@ def gen_case(r, cid, tier, family=None, force=None):
     if r.random() < 0.3:
         trans = gl.rand_transform(r, spec)
         g.lines.append(gl.trans_cmd(trans))
-    if r.random() < 0.2 and spec["family"] != "fourier" and not spec.get("rule", "").startswith(("gauss-laguerre", "gauss-hermite")):
+    conformal = False
+    if r.random() < 0.2 and force != "construct" and spec["family"] != "fourier" and not spec.get("rule", "").startswith(("gauss-laguerre", "gauss-hermite")):
+        # (never together with a construction phase: loadConstructedPoints() inverts the conformal map by a Newton iteration without an
+        #  iteration bound, which does not return for some candidate points; that is a matter of the transforms, not of the file format)
         g.lines.append("conformal g " + " ".join(str(r.choice([0, 1, 2, 4, 6])) for _ in range(d)))
+        conformal = True
     g.xs = gl.rand_points(r, spec, 3, trans)
     loaded, needed, constructing, refined = (outs == 0), (outs > 0), False, False
-    nested = spec["family"] != "global" or spec["rule"] in gl.GLOBAL_NESTED
+    nested = (spec["family"] != "global" or spec["rule"] in gl.GLOBAL_NESTED) and not conformal      # 'nested' gates beginConstruction
+    iscustom = spec.get("rule") == "custom-tabulated"     # updateGrid() of a custom-rule grid without loaded values re-reads the rule from a null file name
     fns = ["hash", "hash", "poly", "smooth", "affine"]
 
     def cont_for_state():
@@ -197,7 +202,7 @@ def gen_case(r, cid, tier, family=None, force=None):
                 c.append("finish {s}")
             return c
         if outs == 0:
-            return ["update {s} %d level" % r.randint(1, 3)] if spec["family"] in ("sequence", "fourier") or (spec["family"] == "global" and nested) else None
+            return ["update {s} %d level" % r.randint(1, 3)] if spec["family"] in ("sequence", "fourier") or (spec["family"] == "global" and nested and not iscustom) else None
         if needed:
             c = ["load {s} " + r.choice(fns)]
             if r.random() < 0.6:
@@ -246,7 +251,7 @@ def gen_case(r, cid, tier, family=None, force=None):
                 needed = False
         elif outs == 0:
             if k < 0.5:
-                u = gl.update_cmd(r, spec)
+                u = gl.update_cmd(r, spec) if not iscustom else None
                 if u:
                     g.lines.append(u)
                     did = "update"
@@ -345,7 +350,7 @@ def corpus_cases(r, tier):
     mk("cLocalAll", ["make localp g 2 2 3 2 localp-boundary ll: 4 3", "trans g a: -1 0 b: 3 0.5", "conformal g 4 2", ("g", "needed-only:localp", ["load {s} hash"]),
                      "load g hash", ("g", "loaded:localp", ["refsurp {s} 0x1p-4 fds -1", "load {s} poly"]),
                      "refsurp g 0x1p-4 classic -1", ("g", "loaded+needed:localp", ["load {s} poly", "refsurp {s} 0x1p-6 parents 0"]),
-                     "begin g", "cand g surp 0x1p-6 classic -1", "deliver g hash idx: 9 3 7", ("g", "constructing:localp", ["cand {s} surp 0x1p-6 classic -1", "deliver {s} hash idx: 0 1 2 3", "finish {s}"]),
+                     "clearconformal g", "begin g", "cand g surp 0x1p-6 classic -1", "deliver g hash idx: 9 3 7", ("g", "constructing:localp", ["cand {s} surp 0x1p-6 classic -1", "deliver {s} hash idx: 0 1 2 3", "finish {s}"]),
                      "finish g", ("g", "after-finish:localp", ["refsurp {s} 0x1p-3 stable 1"])],
        sp("localp", 2, 2, rule="localp-boundary", order=2), [-0.5, 0.1, 2.5, 0.4, 1.0, 0.25], None)
     mk("cLocalZero", ["make localp g 2 0 2 1 localp", ("g", "zero-outputs:localp"), "make localp g 1 0 3 0 localp", ("g", "zero-outputs:localp")], sp("localp", 2, 0), [], None)
@@ -374,10 +379,11 @@ def corpus_cases(r, tier):
 
 # ------------------------------------------------------------------------------------------------ output parsing
 class Step:
-    __slots__ = ("cmd", "raw", "api", "dg", "cand", "exc", "written", "same")
+    __slots__ = ("cmd", "raw", "api", "dg", "dv", "cand", "exc", "written", "same")
 
     def __init__(self, cmd):
         self.cmd, self.raw, self.api, self.dg, self.cand, self.exc, self.written, self.same = cmd, None, None, None, None, None, None, None
+        self.dv = None
 
 
 def parse_output(text):
@@ -412,6 +418,11 @@ def parse_output(text):
             step.api[t[0]] = (t[1] if len(t) > 1 else "").strip()
         elif line.startswith("o dg "):
             step.dg = dict(x.split("=", 1) for x in line[5:].split())
+        elif line.startswith("o dv "):
+            t = line.split()
+            if step.dv is None:
+                step.dv = {}
+            step.dv[t[2]] = [gl.fl(v) for v in t[4:]]
         elif line.startswith("o cand "):
             step.cand = line[7:]
         elif line.startswith("o written "):
@@ -527,12 +538,36 @@ def check_api_vs_fields(fields, api):
     return bad
 
 
+DERIVED = {"qw", "iw", "eval", "evalb", "integ", "diff", "hbasis", "hsupport"}
+TOL = 1e-9
+
+
+def close_vec(a, b):
+    if len(a) != len(b):
+        return False
+    scale = max([1.0] + [abs(v) for v in a + b if v == v and abs(v) != float("inf")])
+    for u, v in zip(a, b):
+        if u != u and v != v:
+            continue
+        if u == v:
+            continue
+        if not abs(u - v) <= TOL * scale:
+            return False
+    return True
+
+
 def trigger_of(raw, default):
     """input class of a grid state, from the members of the live object"""
     if not raw:
         return default
     if "updated.active" in raw and raw["updated.active"].split(":")[0].split()[1] == "0":
         return "updated-tensors-without-active"
+    try:
+        if raw.get("type") == "fourier" and raw.get("coef", "none") not in ("none", "absent") and raw.get("points", "none") != "none":
+            if len(raw["coef"].split()) != 2 * int(raw["outs"]) * int(raw["points"].split()[1]):
+                return "fourier-coefficients-of-another-point-set"
+    except (ValueError, IndexError):
+        pass
     if raw.get("outs") == "0":
         return "zero-outputs"
     if raw.get("constr") == "1":
@@ -596,7 +631,7 @@ def evaluate(res, gens, cases, model, stats, fam_of):
             else:
                 bad = [l for l in m["status"] if l.startswith("MISMATCH")]
                 if bad:
-                    viol("model-%s:%s" % (bad[0].split()[2].rstrip(":"), fam), "the binary image does not follow the proved grammar: " + bad[0][:300])
+                    viol("model-%s:%s:%s" % (bad[0].split()[2].rstrip(":"), fam, trigger_of(live.raw if live else None, cls)), "the binary image does not follow the proved grammar: " + bad[0][:300])
                     stats["model_mismatch"] += 1
                 elif live is not None and live.raw is not None:
                     f, rw = m["fields"], live.raw
@@ -627,9 +662,9 @@ def evaluate(res, gens, cases, model, stats, fam_of):
                     break
                 if c[0] in ("read", "readf") and t.exc is not None:
                     fmt = c[2]
-                    viol("read-throws:%s:%s:%s" % (fmt, fam, cls), "%s of what the library wrote raised %s %s (state %s)" % (t.cmd, t.exc[0], t.exc[1][:150], state))
+                    viol("read-throws:%s:%s:%s" % (fmt, fam, trigger_of(live.raw if live else None, cls)), "%s of what the library wrote raised %s %s (state %s)" % (t.cmd, t.exc[0], t.exc[1][:150], state))
                 if c[0] in ("write", "writef") and t.exc is not None:
-                    viol("write-throws:%s:%s:%s" % (c[2], fam, cls), "%s raised %s %s (state %s)" % (t.cmd, t.exc[0], t.exc[1][:150], state))
+                    viol("write-throws:%s:%s:%s" % (c[2], fam, trigger_of(live.raw if live else None, cls)), "%s raised %s %s (state %s)" % (t.cmd, t.exc[0], t.exc[1][:150], state))
                 if c[0] == "digest" and t.dg is not None:
                     who = c[1]
                     if who == slot and ref is None:
@@ -641,10 +676,14 @@ def evaluate(res, gens, cases, model, stats, fam_of):
                         route = {"rb": "bin:stream", "ra": "ascii:stream", "rfb": "bin:filename", "rfa": "ascii:filename", "rsb": "bin:fstream",
                                  "rsa": "ascii:fstream", "rwb": "bin:ofstream"}.get(who, who)
                         diff = [k for k in ref if t.dg.get(k) != ref[k]]
-                        if diff:
-                            k = diff[0]
+                        if diff and set(diff) <= DERIVED:
+                            # quantities recomputed from rebuilt caches (1-D rule tables of a different maximal level ...): compare the numbers
+                            stats["to_confirm"].append((g, ob, "restore"))
+                            stats["derived_hash_differences"] += 1
+                        elif diff:
+                            k = [c for c in diff if c not in DERIVED][0]
                             kind = "rewrite" if set(diff) <= {"bin", "ascii"} else "restore"
-                            viol("%s:%s:%s:%s:%s" % (kind, route.split(":")[0], fam, k, cls),
+                            viol("%s:%s:%s:%s:%s" % (kind, route.split(":")[0], fam, k, trigger_of(live.raw if live else None, cls)),
                                  "after write/read through %s the %s differs from the original (all differing categories: %s; state %s)" % (
                                      route, "re-written image" if kind == "rewrite" else "query API digest", ",".join(diff), state))
                         else:
@@ -665,16 +704,19 @@ def evaluate(res, gens, cases, model, stats, fam_of):
                     if cont_cands.get(who) != cont_cands.get("co") or diff:
                         # the original side of this comparison is a copyGrid() of the original (copies are C11's matter):
                         # confirm on the original itself before reporting
-                        stats["to_confirm"].append((g, ob, fmt))
+                        stats["to_confirm"].append((g, ob, "continuation"))
                     else:
                         stats["continuations_equal"] += 1
             i = j
 
 
-def confirm_continuations(res, drv, wd, stats):
-    """re-run the history up to the observation, restore, and apply the continuation to the ORIGINAL grid itself (no copy)"""
+def confirm_cases(res, drv, wd, stats):
+    """second look at hash differences that need numbers or the original itself:
+    re-run the history up to the observation, restore through both formats, print the NUMBERS behind the derived categories
+    (they are recomputed from caches the reader rebuilds, so they are compared with the tolerance TOL), and apply the
+    continuation to the ORIGINAL grid itself instead of a copy of it"""
     todo, seen = [], set()
-    for g, ob, fmt in stats["to_confirm"]:
+    for g, ob, why in stats["to_confirm"]:
         if (g.cid, ob["k"]) in seen:
             continue
         seen.add((g.cid, ob["k"]))
@@ -690,11 +732,11 @@ def confirm_continuations(res, drv, wd, stats):
                 pre.append(l)
         slot, x = ob["slot"], ob["x"]
         cid = "%s.confirm%d" % (g.cid, ob["k"])
-        L = ["case " + cid] + pre + ["write %s bin stream sb" % slot, "write %s ascii stream sa" % slot, "read rb bin stream sb", "read ra ascii stream sa", "sync rb " + slot, "sync ra " + slot]
+        L = ["case " + cid] + pre + ["dump %s raw" % slot, "write %s bin stream sb" % slot, "write %s ascii stream sa" % slot, "read rb bin stream sb", "read ra ascii stream sa",
+                                     "sync rb " + slot, "sync ra " + slot, "digestv %s%s" % (slot, x), "digestv rb" + x, "digestv ra" + x, "merge zz"]   # 'merge zz' is a marker
         for sl in (slot, "rb", "ra"):
-            L.append("# cont " + sl)
             L += [c.replace("{s}", sl) for c in ob["contcmds"]]
-            L.append("digest %s%s" % (sl, x))
+            L.append("digestv %s%s" % (sl, x))
         todo.append((g, ob, cid, L))
     if not todo:
         return
@@ -702,49 +744,87 @@ def confirm_continuations(res, drv, wd, stats):
     with open(sp, "w") as fh:
         for _g, _ob, _cid, L in todo:
             fh.write("\n".join(L) + "\n")
-    rc, so, se = vlib.run([drv, sp, wd, "20"], timeout=900)
+    rc, so, se = vlib.run([drv, sp, wd, "20"], timeout=1200)
+    open(os.path.join(wd, "confirm.out"), "w").write(so)
     cases = parse_output(so)
+
+    def numeric(a, b):
+        """a, b: Steps of digestv; -> (exact categories that differ, derived categories beyond the tolerance, derived within)"""
+        ex = [c for c in a.dg if c not in DERIVED and b.dg.get(c) != a.dg[c]]
+        far, near = [], []
+        for c in sorted(DERIVED):
+            if a.dg.get(c) == b.dg.get(c):
+                continue
+            va, vb = (a.dv or {}).get(c), (b.dv or {}).get(c)
+            if va is None or vb is None or not close_vec(va, vb):
+                far.append(c)
+            else:
+                near.append(c)
+        return ex, far, near
     for g, ob, cid, L in todo:
         steps = cases.get(cid, [])
         slot = ob["slot"]
-        # locate the continuation part: after the two reads
-        k = max([i for i, t in enumerate(steps) if t.cmd.startswith("sync ra ")] + [-1])
+        fam = g.spec["family"]
+        raws = [t.raw for t in steps if t.raw is not None]
+        cls = trigger_of(raws[-1] if raws else None, ob["state"].split(":")[0].replace("fresh-", "").replace("final-", ""))
+        rp = {"kind": "impl-counterexample", "script": L}
+        k = max([i for i, t in enumerate(steps) if t.cmd.startswith("merge zz")] + [-1])
+        if k < 0:
+            stats["confirm_incomplete"] += 1
+            continue
+        pre = {t.cmd.split()[1]: t for t in steps[:k] if t.cmd.startswith("digestv ") and t.dg is not None}
         part = {slot: [], "rb": [], "ra": []}
         for t in steps[k + 1:]:
             c = t.cmd.split()
             if len(c) > 1 and c[1] in part:
                 part[c[1]].append(t)
-        sig = {}
-        for sl, ts in part.items():
-            sig[sl] = ([(t.cmd.split()[0], t.cand, t.exc[0] if t.exc else None) for t in ts if not t.cmd.startswith("digest")],
-                       [t.dg for t in ts if t.cmd.startswith("digest")][-1:] or [None])
-        fam = g.spec["family"]
-        cls = ob["state"].split(":")[0].replace("fresh-", "").replace("final-", "")
-        rawl = None
         for who, fmt in (("rb", "bin"), ("ra", "ascii")):
-            a, b = sig[slot], sig[who]
-            if a[1][0] is None or b[1][0] is None:
-                if (a[1][0] is None) != (b[1][0] is None):
+            if slot not in pre or who not in pre:
+                stats["confirm_incomplete"] += 1
+                continue
+            ex, far, near = numeric(pre[slot], pre[who])
+            if ex or far:
+                res.violation("restore%s:%s:%s:%s:%s" % ("" if ex else "-numeric", fmt, fam, (ex + far)[0], cls),
+                              "after write/read through %s the query API differs from the original beyond rounding: %s (state %s) [case %s: %s]" % (
+                                  fmt, ",".join(ex + far), ob["state"], g.cid, g.lines[1]), rp)
+                stats["violations"] += 1
+                continue
+            if near:
+                stats["rounding_level_differences"] += 1
+                for c in near:
+                    stats["rounding_level_categories"][c] = stats["rounding_level_categories"].get(c, 0) + 1
+            if not ob["contcmds"]:
+                continue
+            a, b = part[slot], part[who]
+            ca = [(t.cmd.split()[0], t.cand, t.exc[0] if t.exc else None) for t in a if not t.cmd.startswith("digestv")]
+            cb = [(t.cmd.split()[0], t.cand, t.exc[0] if t.exc else None) for t in b if not t.cmd.startswith("digestv")]
+            da = [t for t in a if t.cmd.startswith("digestv") and t.dg is not None][-1:]
+            db = [t for t in b if t.cmd.startswith("digestv") and t.dg is not None][-1:]
+            if not da or not db:
+                if bool(da) != bool(db):
                     res.violation("continuation-fails:%s:%s:%s" % (fmt, fam, cls), "the continuation %s completes on only one of original / grid restored from %s [case %s: %s]" % (
-                        ob["contcmds"], fmt, g.cid, g.lines[1]), {"kind": "impl-counterexample", "script": L})
+                        ob["contcmds"], fmt, g.cid, g.lines[1]), rp)
                     stats["violations"] += 1
                 continue
-            if a[0] != b[0]:
-                w = [i for i in range(min(len(a[0]), len(b[0]))) if a[0][i] != b[0][i]]
-                cmdname = a[0][w[0]][0] if w else "?"
-                res.violation("continuation-calls:%s:%s:%s:%s" % (fmt, fam, cmdname, cls),
-                              "the call '%s' of the continuation returns different candidates / exceptions on the original and on the grid restored from %s (state %s) [case %s: %s]" % (
-                                  cmdname, fmt, ob["state"], g.cid, g.lines[1]), {"kind": "impl-counterexample", "script": L, "original": str(a[0])[:2000], "restored": str(b[0])[:2000]})
-                stats["violations"] += 1
+            ex2, far2, near2 = numeric(da[0], db[0])
+            if ca == cb and not ex2 and not far2:
+                stats["continuations_confirmed_equal"] += 1
                 continue
-            diff = [c for c in a[1][0] if b[1][0].get(c) != a[1][0][c]]
-            if diff:
-                res.violation("continuation:%s:%s:%s:%s" % (fmt, fam, diff[0], cls),
-                              "the same continuation %s applied to the original and to the grid restored from %s gives different %s (state %s) [case %s: %s]" % (
-                                  ob["contcmds"], fmt, ",".join(diff), ob["state"], g.cid, g.lines[1]), {"kind": "impl-counterexample", "script": L})
-                stats["violations"] += 1
+            if near:
+                # the restored grid already differs from the original at rounding level: a threshold decision of the continuation may flip
+                stats["rounding_sensitive_continuations_skipped"] += 1
+                continue
+            if ca != cb:
+                w = [i for i in range(min(len(ca), len(cb))) if ca[i] != cb[i]]
+                cmdname = ca[w[0]][0] if w else "?"
+                res.violation("continuation-calls:%s:%s:%s" % (fmt, fam, cls),
+                              "the call '%s' of the continuation returns different candidates / exceptions on the original and on the grid restored from %s (state %s) [case %s: %s]" % (
+                                  cmdname, fmt, ob["state"], g.cid, g.lines[1]), dict(rp, original=str(ca)[:2000], restored=str(cb)[:2000]))
             else:
-                stats["continuation_copy_only_differences"] += 1
+                res.violation("continuation:%s:%s:%s" % (fmt, fam, cls),
+                              "the same continuation %s applied to the original and to the grid restored from %s gives different %s (state %s) [case %s: %s]" % (
+                                  ob["contcmds"], fmt, ",".join(ex2 + far2), ob["state"], g.cid, g.lines[1]), rp)
+            stats["violations"] += 1
 
 
 def run(res, tier, seed, replay_script=None):
@@ -777,11 +857,15 @@ def run(res, tier, seed, replay_script=None):
         gens = [g]
     else:
         gens = corpus_cases(r, tier)
-        n = {"quick": 420, "thorough": 5200}[tier] * (3 if proof_broken else 1)
+        n = {"quick": 1200, "thorough": 12000}[tier] * (3 if proof_broken else 1)
         for i in range(n):
             force = "construct" if i % 4 == 0 else None
             gens.append(gen_case(r, "h%d" % i, tier, force=force))
+    import time
+    t0 = time.time()
     rcs, cases = run_driver_parallel(drv, gens, wd, timeout={"quick": 600, "thorough": 3000}[tier])
+    vlib.log("[C06] driver: %d cases in %.1fs" % (len(gens), time.time() - t0))
+    t0 = time.time()
     for rc, se in rcs:
         if rc != 0:
             res.violation("iodrv-failed", "iodrv exited with %d: %s" % (rc, se), {"kind": "impl-counterexample", "script": []}, no_input=True)
@@ -811,11 +895,17 @@ def run(res, tier, seed, replay_script=None):
                     mism_runner = "ioformat runner failed (%d): %s" % (rc, se[-300:])
                 model.update(parse_model(so))
 
+    vlib.log("[C06] model runner: %d images in %.1fs" % (len(model), time.time() - t0))
+    t0 = time.time()
     stats = {"observations": 0, "violations": 0, "model_agree": 0, "model_mismatch": 0, "model_missing": 0, "fields_compared": 0, "getter_checks": 0,
              "roundtrips": 0, "roundtrips_equal": 0, "continuations": 0, "continuations_equal": 0, "states": {},
-             "library_failures_outside_io": {}, "library_failure_examples": {}, "to_confirm": [], "continuation_copy_only_differences": 0}
+             "library_failures_outside_io": {}, "library_failure_examples": {}, "to_confirm": [], "derived_hash_differences": 0, "confirm_incomplete": 0, "rounding_level_differences": 0,
+             "rounding_level_categories": {}, "continuations_confirmed_equal": 0, "rounding_sensitive_continuations_skipped": 0}
     evaluate(res, gens, cases, model, stats, None)
-    confirm_continuations(res, drv, wd, stats)
+    vlib.log("[C06] evaluation in %.1fs" % (time.time() - t0))
+    t0 = time.time()
+    confirm_cases(res, drv, wd, stats)
+    vlib.log("[C06] confirmations: %d in %.1fs" % (len(stats["to_confirm"]), time.time() - t0))
 
     if (mism_runner or stats["model_missing"]) and runner and not res.violations:
         res.violation("correspondence", mism_runner or ("the model runner produced no result for %d saved images" % stats["model_missing"]),
@@ -851,7 +941,9 @@ def run(res, tier, seed, replay_script=None):
         "model_fields_compared": stats["fields_compared"], "public_getter_comparisons": stats["getter_checks"],
         "roundtrips_compared": stats["roundtrips"], "roundtrips_bit_identical": stats["roundtrips_equal"],
         "continuations_compared": stats["continuations"], "continuations_equal": stats["continuations_equal"],
-        "continuation_differences_due_to_copy_only": stats["continuation_copy_only_differences"],
+        "continuation_hash_differences_rechecked_on_the_original_itself_equal": stats["continuations_confirmed_equal"],
+        "derived_quantities_equal_within_1e-9_not_bitwise": stats["rounding_level_differences"], "derived_categories_at_rounding_level": stats["rounding_level_categories"],
+        "continuations_skipped_rounding_sensitive": stats["rounding_sensitive_continuations_skipped"], "confirmations_incomplete": stats["confirm_incomplete"],
         "family_distribution": fam_count, "api_exceptions_in_scripts": excs,
         "direct_property_violations": stats["violations"],
         "skipped_library_failures_outside_io": stats["library_failures_outside_io"], "skipped_library_failure_examples": stats["library_failure_examples"],
